@@ -17,7 +17,7 @@ import (
 
 var mixC15 = Mix{Set: 24, Delete: 9, Get: 3, GetItem: 5, Exist: 2, MinMax: 4, Totals: 1, Visit: 6, Iter: 2, Len: 1,
 	Flush: 7, Evict: 7, Reopen: 3, Snapshot: 4, SnapRead: 6, SnapClose: 3, SnapOfSnap: 1,
-	SetCollNew: 2, SetCollExisting: 2, RemoveColl: 2, PinVisit: 1, ResumeVisit: 2, VisitEvict: 4}
+	SetCollNew: 2, SetCollExisting: 2, RemoveColl: 2, PinVisit: 1, ResumeVisit: 2, VisitEvict: 4, CopyTo: 2}
 
 func init() {
 	register(&Prop{
@@ -51,6 +51,12 @@ func runC15(ctx *Ctx, idx int) Result {
 		return runC15Concurrent(ctx, idx, r)
 	}
 	cfg := driver.Config{MemOnly: r.P(20), ReadbackK: []int{0, 1, 4}[r.Intn(3)], Walk: true, RefMon: true}
+	if idx%2 == 1 {
+		// recycling allocator: an item whose count is back to zero is wiped, so a release that comes
+		// too early also shows as a wrong result, not only in the counters
+		cfg.Recycle = true
+		ctx.Stats["c15.recycling-allocator-cases"]++
+	}
 	hc := HistCfg{Steps: r.Range(20, 70), NColls: r.Range(1, 3), NKeys: r.Range(4, 14), KeyClass: gen.KeysShort, ValClass: gen.ValsMixed,
 		Prio: gen.PrioRegime(r.Intn(int(gen.NumPrioRegimes))), Mix: mixC15, MaxSnaps: 3}
 	if v := os.Getenv("VERIF_DEBUG_STEPS"); v != "" { // debugging aid: truncate the history
